@@ -14,6 +14,9 @@
 static dw_iface D;
 static int is_flow;
 static struct { uint64_t last_send_ms; uint8_t sent_any; uint64_t last_frame_ms; uint8_t frame_any; } MON;
+/* reference session dictionary (API-level drivers): what the table SHOULD hold, independent of its slots */
+static struct { uint8_t present[4], complete[4]; uint64_t last_s[4]; } RM;
+static int rm_incomplete(void) { int n = 0; for (int k = 0; k < 4; k++) n += RM.present[k] && !RM.complete[k]; return n; }
 
 /* -------------------------------------------------------------- monitors */
 static void on_hello(dw_iface *d) {
@@ -23,6 +26,10 @@ static void on_hello(dw_iface *d) {
     if (!incomplete) {
         int valid = 0; for (int i = 0; i < SESSION_TABLE_MAX_ENTRIES; i++) valid += d->sessionTable->entries[i].valid;
         vf_violation(valid ? "hello:sent-with-all-sessions-complete" : "hello:sent-with-empty-session-table", "periodic Hello at t=%llu ms although the session table holds %d sessions, none of them incomplete", (unsigned long long)W.now_ms, valid);
+    }
+    if (!is_flow && !rm_incomplete()) {
+        int pres = 0; for (int k = 0; k < 4; k++) pres += RM.present[k];
+        vf_violation(pres ? "hello:sent-with-all-sessions-complete(model)" : "hello:sent-with-empty-session-table(model)", "periodic Hello at t=%llu ms: by the operations performed so far the table holds %d sessions, none of them incomplete (the table's own slots say otherwise)", (unsigned long long)W.now_ms, pres);
     }
     if (MON.sent_any && W.now_ms - MON.last_send_ms < 1000)
         vf_violation("hello:less-than-1s-apart", "periodic Hello at t=%llu ms, only %llu ms after the previous one on this interface", (unsigned long long)W.now_ms, (unsigned long long)(W.now_ms - MON.last_send_ms));
@@ -77,13 +84,18 @@ static void apply(int i) {
     evd e = EV[i];
     band_state *band = D.enumerationAutomata->extra; mapping_state *ms = D.mappingAutomata->extra;
     switch (e.kind) {
-        case K_TICK: dw_tick(&D); break;
+        case K_TICK: {
+            uint64_t ns = W.now_ms / 1000;
+            if (ms->inactive_timeout_ts != 0 && ns >= ms->inactive_timeout_ts) memset(&RM, 0, sizeof RM);      /* 30 s without traffic: sessions dropped */
+            for (int k = 0; k < 4; k++) if (RM.present[k] && ns > RM.last_s[k] + 60) RM.present[k] = 0;          /* stale-session expiry */
+            dw_tick(&D); break; }
         case K_ADV: W.now_ms += (uint64_t)e.arg; break;
-        case K_ADD: session_table_add(D.sessionTable, KMAC[e.arg], KGEN[e.arg], 1); break;
-        case K_REFRESH2: session_table_add(D.sessionTable, KMAC[e.arg], KGEN[e.arg], 2); break;
-        case K_COMPLETE: { session_entry *s = session_table_find(D.sessionTable, KMAC[e.arg], KGEN[e.arg], 0); if (s) s->complete = true; session_table_update_complete_status(D.sessionTable); break; }
-        case K_REMOVE: session_table_remove(D.sessionTable, KMAC[e.arg], KGEN[e.arg]); break;
-        case K_CLEAR: session_table_clear(D.sessionTable); break;
+        case K_ADD: case K_REFRESH2:
+            session_table_add(D.sessionTable, KMAC[e.arg], KGEN[e.arg], e.kind == K_ADD ? 1 : 2);
+            if (!RM.present[e.arg]) { RM.present[e.arg] = 1; RM.complete[e.arg] = 0; } RM.last_s[e.arg] = W.now_ms / 1000; break;
+        case K_COMPLETE: { session_entry *s = session_table_find(D.sessionTable, KMAC[e.arg], KGEN[e.arg], 0); if (s) s->complete = true; session_table_update_complete_status(D.sessionTable); if (RM.present[e.arg]) RM.complete[e.arg] = 1; break; }
+        case K_REMOVE: session_table_remove(D.sessionTable, KMAC[e.arg], KGEN[e.arg]); RM.present[e.arg] = 0; break;
+        case K_CLEAR: session_table_clear(D.sessionTable); memset(&RM, 0, sizeof RM); break;
         case K_HELLO_RX: for (int k = 0; k < e.arg; k++) band_on_hello_received(band); break;
         case K_ENUM: switch_state_enumeration(D.enumerationAutomata, e.arg, "api"); break;
         case K_BANDINIT: band_init_stats(band); band_choose_hello_time(band); break;
@@ -92,7 +104,7 @@ static void apply(int i) {
         case K_MAP: {
             uint8_t prev = D.mappingAutomata->current_state;
             switch_state_mapping(D.mappingAutomata, e.arg, "api");
-            if (prev != 0 && D.mappingAutomata->current_state == 0) session_table_clear(D.sessionTable);   /* darwin-main.c:349 */
+            if (prev != 0 && D.mappingAutomata->current_state == 0) { session_table_clear(D.sessionTable); memset(&RM, 0, sizeof RM); }   /* darwin-main.c:349 */
             break; }
         case K_F_DISC: frame(0x00, e.arg & 1, (e.arg & 2) != 0, (e.arg & 4) != 0); break;
         case K_F_HELLO: frame(0x01, 0, 0, 0); break;
@@ -144,6 +156,7 @@ typedef struct cstate {
     session_entry ent[4]; uint8_t count, all_complete;
     uint64_t last_hello_tx; uint32_t hello_calls;
     uint64_t mon_last; uint8_t mon_any; uint64_t mon_frame; uint8_t mon_frame_any;
+    uint8_t rm_present[4], rm_complete[4]; uint64_t rm_last[4];
 } cstate;
 
 static void save(uint8_t *buf) {
@@ -157,6 +170,7 @@ static void save(uint8_t *buf) {
     for (int i = 4; i < SESSION_TABLE_MAX_ENTRIES; i++) if (D.sessionTable->entries[i].valid) vf_harness_error("C12: more than four table slots in use");
     c.last_hello_tx = D.LastHelloTxMs; c.hello_calls = D.hello_calls;
     c.mon_last = MON.last_send_ms; c.mon_any = MON.sent_any; c.mon_frame = MON.last_frame_ms; c.mon_frame_any = MON.frame_any;
+    memcpy(c.rm_present, RM.present, 4); memcpy(c.rm_complete, RM.complete, 4); memcpy(c.rm_last, RM.last_s, sizeof c.rm_last);
     memcpy(buf, &c, sizeof c);
 }
 static void restore(const uint8_t *buf) {
@@ -169,6 +183,7 @@ static void restore(const uint8_t *buf) {
     memcpy(D.sessionTable->entries, c.ent, sizeof c.ent); D.sessionTable->count = c.count; D.sessionTable->all_complete = c.all_complete;
     D.LastHelloTxMs = c.last_hello_tx; D.hello_calls = c.hello_calls;
     MON.last_send_ms = c.mon_last; MON.sent_any = c.mon_any; MON.last_frame_ms = c.mon_frame; MON.frame_any = c.mon_frame_any;
+    memcpy(RM.present, c.rm_present, 4); memcpy(RM.complete, c.rm_complete, 4); memcpy(RM.last_s, c.rm_last, sizeof c.rm_last);
 }
 
 static int64_t relclamp(uint64_t ts, uint64_t now, int64_t lo, int64_t hi) { int64_t d = (int64_t)ts - (int64_t)now; return d < lo ? lo : d > hi ? hi : d; }
@@ -188,6 +203,7 @@ static size_t key(uint8_t *out, size_t cap) {
     PUT(D.LastHelloTxMs ? -relclamp(D.LastHelloTxMs, now, -1000, 0) : 99999);
     PUT(MON.sent_any ? -relclamp(MON.last_send_ms, now, -1000, 0) : 99999);
     PUT(MON.frame_any ? -relclamp(MON.last_frame_ms, now, -30000, 0) : 99999);
+    for (int k = 0; k < 4; k++) { PUT(RM.present[k]); if (RM.present[k]) { PUT(RM.complete[k]); PUT(-relclamp(RM.last_s[k], ns, -61, 0)); } }
     PUT(D.sessionTable->count); PUT(D.sessionTable->all_complete);
     for (int i = 0; i < 4; i++) {
         session_entry *e = &D.sessionTable->entries[i];
@@ -203,21 +219,21 @@ static uint64_t obs(void) { return 0x4000u + D.hello_calls * 0x9E3779B1u + D.enu
 /* start states reached by legal prefixes (mode start, --a 1..7) */
 static void root_setup(void) {
     dw_init(&D, 0);
-    memset(&MON, 0, sizeof MON);
+    memset(&MON, 0, sizeof MON); memset(&RM, 0, sizeof RM);
     dw_on_hello = on_hello;
     band_state *band = D.enumerationAutomata->extra; mapping_state *ms = D.mappingAutomata->extra;
     long s = A.a;
     if (s <= 0) return;
     if (s == 7) { switch_state_mapping(D.mappingAutomata, 0x00, "pre"); mapping_reset_inactive_timeout(ms); }
-    session_table_add(D.sessionTable, KMAC[0], KGEN[0], 1);
+    session_table_add(D.sessionTable, KMAC[0], KGEN[0], 1); RM.present[0] = 1; RM.complete[0] = 0; RM.last_s[0] = W.now_ms / 1000;
     band_init_stats(band); band_choose_hello_time(band);
     switch_state_enumeration(D.enumerationAutomata, enum_new_session, "pre");            /* 1: Pausing just armed */
-    if (s == 4) { D.sessionTable->entries[0].complete = true; session_table_update_complete_status(D.sessionTable); dw_tick(&D); return; }   /* 4: Wait */
+    if (s == 4) { D.sessionTable->entries[0].complete = true; RM.complete[0] = 1; session_table_update_complete_status(D.sessionTable); dw_tick(&D); return; }   /* 4: Wait */
     if (s >= 2) { W.now_ms += 1000; dw_tick(&D); }                                        /* 2: immediately after a periodic Hello */
     if (s == 3) { W.now_ms += 300; dw_tick(&D); }                                         /* 3: block timeout re-armed the timer */
-    if (s == 5) { W.now_ms += 61000; dw_tick(&D); }                                       /* 5: emptied by expiry */
-    if (s == 6) session_table_clear(D.sessionTable);                                      /* 6: emptied by Reset */
-    if (s == 7) { W.now_ms += 31000; dw_tick(&D); }                                       /* 7: emptied by the 30 s mapping timeout */
+    if (s == 5) { W.now_ms += 61000; RM.present[0] = 0; dw_tick(&D); }                                       /* 5: emptied by expiry */
+    if (s == 6) { session_table_clear(D.sessionTable); memset(&RM, 0, sizeof RM); }                                      /* 6: emptied by Reset */
+    if (s == 7) { W.now_ms += 31000; memset(&RM, 0, sizeof RM); dw_tick(&D); }                                       /* 7: emptied by the 30 s mapping timeout */
 }
 
 int main(int argc, char **argv) {
